@@ -145,7 +145,7 @@ ZIP_BASES = [b for b in BASES if ".zip" in b or ".mbox" in b or "md" in b] * 2
 
 @st.composite
 def _case(draw):
-    mode = draw(st.sampled_from(["struct", "struct", "struct", "struct", "raw", "noslash"]))
+    mode = draw(st.sampled_from(["struct", "struct", "struct", "struct", "raw", "noslash", "probe"]))
     c = {"full": draw(st.booleans()), "cwd": draw(st.sampled_from(CWDS)),
          "worldB": draw(st.sampled_from(["absent", "diff"])), "form": draw(st.sampled_from(FORMS))}
     if mode == "raw":
@@ -164,6 +164,19 @@ def _case(draw):
         c["form"] = draw(st.sampled_from(["spartan", "spartan", "http", "wap", "head"]))
         c.update(noslash=True, sel=draw(st.sampled_from(NOSLASH)) + draw(st.sampled_from(["", "", "/", "|/MAILDIR-MESSAGE/1", "?x"])),
                  inj="", style="noslash", layers=draw(st.sampled_from([0, 0, 1])), enc_all=False, lower_hex=draw(st.booleans()))
+        return c
+    if mode == "probe":
+        # an existence probe: only real directories are walked, the target exists in world A, nothing is appended and
+        # the encoding is exactly what the protocol undoes - os.stat(root + selector) succeeds if the filter is bypassed
+        base = draw(st.sampled_from(["/", "/dir", "/dir/sub", "/md", "/md/new"]))
+        depth = 0 if base == "/" else base.count("/")
+        target = draw(st.sampled_from(["secret.txt", "secret", "secret/inner.txt", "rootx", "rootx/file.txt", "box.mbox",
+                                       "cwd", "cwd/a.txt", "md", "root", "root/readme.txt", "", "new/1.msg"]))
+        sel = base.rstrip("/") + "/" + "../" * (depth + 1) + target
+        fam = clients.FORMS[c["form"]][1]
+        c.update(noslash=False, sel=sel.rstrip("/") or "/..", inj="../" * (depth + 1) + target, style="probe",
+                 layers=0 if fam in ("gopher", "gplus", "gdollar", "gbang") else draw(st.sampled_from([0, 1])),
+                 enc_all=draw(st.booleans()), lower_hex=draw(st.booleans()), worldB="absent")
         return c
     base = draw(st.sampled_from(BASES + ZIP_BASES))
     style = draw(st.sampled_from(["seg", "chr", "aim", "none", "none"]))
@@ -346,6 +359,8 @@ def check_case(case, ctx):
             reach = os.path.normpath(os.fsencode(root) + ssel.replace(b"\\", b"/").split(b"|")[0].split(b"?")[0].replace(b"\0", b""))
             if not monitor.under(reach, os.fsencode(root)) and monitor.under(reach, os.fsencode(S)):
                 ctx.label("reach:outside-object")
+                if case.get("style") == "probe":
+                    ctx.label("reach:probe-of-existing-outside-object")
 
         # (a) non-interference
         if ra.response != rb.response:
